@@ -187,6 +187,7 @@ static int json_escape_str(struct printbuf *pb, const char *str, size_t len, int
 {
 	size_t pos = 0, start_offset = 0;
 	unsigned char c;
+	int rc = 0;
 	while (len)
 	{
 		--len;
@@ -207,25 +208,28 @@ static int json_escape_str(struct printbuf *pb, const char *str, size_t len, int
 				break;
 			}
 
-			if (pos > start_offset)
-				printbuf_memappend(pb, str + start_offset, pos - start_offset);
+			if (pos > start_offset &&
+			    printbuf_memappend(pb, str + start_offset, pos - start_offset) < 0)
+				return -1;
 
 			if (c == '\b')
-				printbuf_memappend(pb, "\\b", 2);
+				rc = printbuf_memappend(pb, "\\b", 2);
 			else if (c == '\n')
-				printbuf_memappend(pb, "\\n", 2);
+				rc = printbuf_memappend(pb, "\\n", 2);
 			else if (c == '\r')
-				printbuf_memappend(pb, "\\r", 2);
+				rc = printbuf_memappend(pb, "\\r", 2);
 			else if (c == '\t')
-				printbuf_memappend(pb, "\\t", 2);
+				rc = printbuf_memappend(pb, "\\t", 2);
 			else if (c == '\f')
-				printbuf_memappend(pb, "\\f", 2);
+				rc = printbuf_memappend(pb, "\\f", 2);
 			else if (c == '"')
-				printbuf_memappend(pb, "\\\"", 2);
+				rc = printbuf_memappend(pb, "\\\"", 2);
 			else if (c == '\\')
-				printbuf_memappend(pb, "\\\\", 2);
+				rc = printbuf_memappend(pb, "\\\\", 2);
 			else if (c == '/')
-				printbuf_memappend(pb, "\\/", 2);
+				rc = printbuf_memappend(pb, "\\/", 2);
+			if (rc < 0)
+				return -1;
 
 			start_offset = ++pos;
 			break;
@@ -233,20 +237,22 @@ static int json_escape_str(struct printbuf *pb, const char *str, size_t len, int
 			if (c < ' ')
 			{
 				char sbuf[7];
-				if (pos > start_offset)
-					printbuf_memappend(pb, str + start_offset,
-					                   pos - start_offset);
+				if (pos > start_offset &&
+				    printbuf_memappend(pb, str + start_offset, pos - start_offset) < 0)
+					return -1;
 				snprintf(sbuf, sizeof(sbuf), "\\u00%c%c", json_hex_chars[c >> 4],
 				         json_hex_chars[c & 0xf]);
-				printbuf_memappend_fast(pb, sbuf, (int)sizeof(sbuf) - 1);
+				if (printbuf_memappend(pb, sbuf, (int)sizeof(sbuf) - 1) < 0)
+					return -1;
 				start_offset = ++pos;
 			}
 			else
 				pos++;
 		}
 	}
-	if (pos > start_offset)
-		printbuf_memappend(pb, str + start_offset, pos - start_offset);
+	if (pos > start_offset &&
+	    printbuf_memappend(pb, str + start_offset, pos - start_offset) < 0)
+		return -1;
 	return 0;
 }
 
@@ -443,19 +449,20 @@ const char *json_object_to_json_string(struct json_object *jso)
 	return json_object_to_json_string_ext(jso, JSON_C_TO_STRING_SPACED);
 }
 
-static void indent(struct printbuf *pb, int level, int flags)
+static int indent(struct printbuf *pb, int level, int flags)
 {
 	if (flags & JSON_C_TO_STRING_PRETTY)
 	{
 		if (flags & JSON_C_TO_STRING_PRETTY_TAB)
 		{
-			printbuf_memset(pb, -1, '\t', level);
+			return printbuf_memset(pb, -1, '\t', level);
 		}
 		else
 		{
-			printbuf_memset(pb, -1, ' ', level * 2);
+			return printbuf_memset(pb, -1, ' ', level * 2);
 		}
 	}
+	return 0;
 }
 
 /* json_object_object */
@@ -466,47 +473,62 @@ static int json_object_object_to_json_string(struct json_object *jso, struct pri
 	int had_children = 0;
 	struct json_object_iter iter;
 
-	printbuf_strappend(pb, "{" /*}*/);
+	/* A failed append stops the output: never return text with a piece missing. */
+	if (printbuf_strappend(pb, "{" /*}*/) < 0)
+		return -1;
 	json_object_object_foreachC(jso, iter)
 	{
 		if (had_children)
 		{
-			printbuf_strappend(pb, ",");
+			if (printbuf_strappend(pb, ",") < 0)
+				return -1;
 		}
-		if (flags & JSON_C_TO_STRING_PRETTY)
-			printbuf_strappend(pb, "\n");
+		if ((flags & JSON_C_TO_STRING_PRETTY) && printbuf_strappend(pb, "\n") < 0)
+			return -1;
 		had_children = 1;
 		if (flags & JSON_C_TO_STRING_SPACED && !(flags & JSON_C_TO_STRING_PRETTY))
-			printbuf_strappend(pb, " ");
-		indent(pb, level + 1, flags);
-		if (flags & JSON_C_TO_STRING_COLOR)
-			printbuf_strappend(pb, ANSI_COLOR_FG_BLUE);
+		{
+			if (printbuf_strappend(pb, " ") < 0)
+				return -1;
+		}
+		if (indent(pb, level + 1, flags) < 0)
+			return -1;
+		if ((flags & JSON_C_TO_STRING_COLOR) &&
+		    printbuf_strappend(pb, ANSI_COLOR_FG_BLUE) < 0)
+			return -1;
 
-		printbuf_strappend(pb, "\"");
-		json_escape_str(pb, iter.key, strlen(iter.key), flags);
-		printbuf_strappend(pb, "\"");
+		if (printbuf_strappend(pb, "\"") < 0 ||
+		    json_escape_str(pb, iter.key, strlen(iter.key), flags) < 0 ||
+		    printbuf_strappend(pb, "\"") < 0)
+			return -1;
 
-		if (flags & JSON_C_TO_STRING_COLOR)
-			printbuf_strappend(pb, ANSI_COLOR_RESET);
+		if ((flags & JSON_C_TO_STRING_COLOR) && printbuf_strappend(pb, ANSI_COLOR_RESET) < 0)
+			return -1;
 
 		if (flags & JSON_C_TO_STRING_SPACED)
-			printbuf_strappend(pb, ": ");
-		else
-			printbuf_strappend(pb, ":");
+		{
+			if (printbuf_strappend(pb, ": ") < 0)
+				return -1;
+		}
+		else if (printbuf_strappend(pb, ":") < 0)
+			return -1;
 
 		if (iter.val == NULL) {
-			if (flags & JSON_C_TO_STRING_COLOR)
-				printbuf_strappend(pb, ANSI_COLOR_FG_MAGENTA);
-			printbuf_strappend(pb, "null");
-			if (flags & JSON_C_TO_STRING_COLOR)
-				printbuf_strappend(pb, ANSI_COLOR_RESET);
+			if ((flags & JSON_C_TO_STRING_COLOR) &&
+			    printbuf_strappend(pb, ANSI_COLOR_FG_MAGENTA) < 0)
+				return -1;
+			if (printbuf_strappend(pb, "null") < 0)
+				return -1;
+			if ((flags & JSON_C_TO_STRING_COLOR) &&
+			    printbuf_strappend(pb, ANSI_COLOR_RESET) < 0)
+				return -1;
 		} else if (iter.val->_to_json_string(iter.val, pb, level + 1, flags) < 0)
 			return -1;
 	}
 	if ((flags & JSON_C_TO_STRING_PRETTY) && had_children)
 	{
-		printbuf_strappend(pb, "\n");
-		indent(pb, level, flags);
+		if (printbuf_strappend(pb, "\n") < 0 || indent(pb, level, flags) < 0)
+			return -1;
 	}
 	if (flags & JSON_C_TO_STRING_SPACED && !(flags & JSON_C_TO_STRING_PRETTY))
 		return printbuf_strappend(pb, /*{*/ " }");
@@ -655,8 +677,8 @@ static int json_object_boolean_to_json_string(struct json_object *jso, struct pr
 {
 	int ret;
 
-	if (flags & JSON_C_TO_STRING_COLOR)
-		printbuf_strappend(pb, ANSI_COLOR_FG_MAGENTA);
+	if ((flags & JSON_C_TO_STRING_COLOR) && printbuf_strappend(pb, ANSI_COLOR_FG_MAGENTA) < 0)
+		return -1;
 
 	if (JC_BOOL(jso)->c_boolean)
 		ret = printbuf_strappend(pb, "true");
@@ -1157,7 +1179,8 @@ static int json_object_double_to_json_string_format(struct json_object *jso, str
 		// The standard formats are guaranteed not to overrun the buffer,
 		// but if a custom one happens to do so, just silently truncate.
 		size = sizeof(buf) - 1;
-	printbuf_memappend(pb, buf, size);
+	if (printbuf_memappend(pb, buf, size) < 0)
+		return -1;
 	return size;
 }
 
@@ -1218,7 +1241,8 @@ int json_object_userdata_to_json_string(struct json_object *jso, struct printbuf
                                         int flags)
 {
 	int userdata_len = strlen((const char *)jso->_userdata);
-	printbuf_memappend(pb, (const char *)jso->_userdata, userdata_len);
+	if (printbuf_memappend(pb, (const char *)jso->_userdata, userdata_len) < 0)
+		return -1;
 	return userdata_len;
 }
 
@@ -1301,13 +1325,14 @@ static int json_object_string_to_json_string(struct json_object *jso, struct pri
                                              int level, int flags)
 {
 	ssize_t len = JC_STRING(jso)->len;
-	if (flags & JSON_C_TO_STRING_COLOR)
-		printbuf_strappend(pb, ANSI_COLOR_FG_GREEN);
-	printbuf_strappend(pb, "\"");
-	json_escape_str(pb, get_string_component(jso), len < 0 ? -(ssize_t)len : len, flags);
-	printbuf_strappend(pb, "\"");
-	if (flags & JSON_C_TO_STRING_COLOR)
-		printbuf_strappend(pb, ANSI_COLOR_RESET);
+	if ((flags & JSON_C_TO_STRING_COLOR) && printbuf_strappend(pb, ANSI_COLOR_FG_GREEN) < 0)
+		return -1;
+	if (printbuf_strappend(pb, "\"") < 0 ||
+	    json_escape_str(pb, get_string_component(jso), len < 0 ? -(ssize_t)len : len, flags) < 0 ||
+	    printbuf_strappend(pb, "\"") < 0)
+		return -1;
+	if ((flags & JSON_C_TO_STRING_COLOR) && printbuf_strappend(pb, ANSI_COLOR_RESET) < 0)
+		return -1;
 	return 0;
 }
 
@@ -1465,36 +1490,46 @@ static int json_object_array_to_json_string(struct json_object *jso, struct prin
 	int had_children = 0;
 	size_t ii;
 
-	printbuf_strappend(pb, "[");
+	/* A failed append stops the output: never return text with a piece missing. */
+	if (printbuf_strappend(pb, "[") < 0)
+		return -1;
 	for (ii = 0; ii < json_object_array_length(jso); ii++)
 	{
 		struct json_object *val;
 		if (had_children)
 		{
-			printbuf_strappend(pb, ",");
+			if (printbuf_strappend(pb, ",") < 0)
+				return -1;
 		}
-		if (flags & JSON_C_TO_STRING_PRETTY)
-			printbuf_strappend(pb, "\n");
+		if ((flags & JSON_C_TO_STRING_PRETTY) && printbuf_strappend(pb, "\n") < 0)
+			return -1;
 		had_children = 1;
 		if (flags & JSON_C_TO_STRING_SPACED && !(flags & JSON_C_TO_STRING_PRETTY))
-			printbuf_strappend(pb, " ");
-		indent(pb, level + 1, flags);
+		{
+			if (printbuf_strappend(pb, " ") < 0)
+				return -1;
+		}
+		if (indent(pb, level + 1, flags) < 0)
+			return -1;
 		val = json_object_array_get_idx(jso, ii);
 		if (val == NULL) {
 
-			if (flags & JSON_C_TO_STRING_COLOR)
-				printbuf_strappend(pb, ANSI_COLOR_FG_MAGENTA);
-			printbuf_strappend(pb, "null");
-			if (flags & JSON_C_TO_STRING_COLOR)
-				printbuf_strappend(pb, ANSI_COLOR_RESET);
+			if ((flags & JSON_C_TO_STRING_COLOR) &&
+			    printbuf_strappend(pb, ANSI_COLOR_FG_MAGENTA) < 0)
+				return -1;
+			if (printbuf_strappend(pb, "null") < 0)
+				return -1;
+			if ((flags & JSON_C_TO_STRING_COLOR) &&
+			    printbuf_strappend(pb, ANSI_COLOR_RESET) < 0)
+				return -1;
 
 		} else if (val->_to_json_string(val, pb, level + 1, flags) < 0)
 			return -1;
 	}
 	if ((flags & JSON_C_TO_STRING_PRETTY) && had_children)
 	{
-		printbuf_strappend(pb, "\n");
-		indent(pb, level, flags);
+		if (printbuf_strappend(pb, "\n") < 0 || indent(pb, level, flags) < 0)
+			return -1;
 	}
 
 	if (flags & JSON_C_TO_STRING_SPACED && !(flags & JSON_C_TO_STRING_PRETTY))
